@@ -295,4 +295,44 @@ example : traj (traced C02.exI (fun u _ => u) true false) {} 2 (0, [(.iter 0, 0)
 example : cv (traced C02.exI (fun u _ => u) true false) {} 2 (0, []) 0 3 = 3 := by
   rw [cv_traced C02.exI (fun u _ => u) {} 2 0 [] 0 3 (fun _ _ => rfl)]; decide
 
+/-! ### Tracing a multi-period `solve()` -/
+
+/-- `solve()` of a tracer-extended model over a list of periods: the traced single-period solve of each period in
+    turn; the first exception stops the run (mirrors `solveList`). -/
+def tracedSolveList (on reset : Bool) :
+    List Nat → World (σ × List (TraceLabel × S)) → List Nat → List Bool →
+      World (σ × List (TraceLabel × S)) × SolveResult
+  | [], w, ps, fs => (w, .ok ps.reverse fs.reverse)
+  | p :: rest, w, ps, fs =>
+    match tracedSolveT I snap on reset o n (p : Int) w with
+    | (w', .ret b) => tracedSolveList on reset rest w' (p :: ps) (b :: fs)
+    | (w', r) => (w', .err r ps.reverse fs.reverse)
+
+/-- **Non-interference for `solve()`.** Forgetting the trace, a traced multi-period solve (tracing on or off, with or
+    without reset) visits the same periods, leaves the same values, statuses and iteration counts, and ends with the same
+    result (positions, flags, or the same exception at the same period) as the untraced `solve()`. -/
+theorem trace_noninterference_solve (on reset : Bool) :
+    ∀ (ps : List Nat) (w : World (σ × List (TraceLabel × S))) (acc : List Nat) (fs : List Bool),
+      ((tracedSolveList I snap o n on reset ps w acc fs).1.map Prod.fst,
+       (tracedSolveList I snap o n on reset ps w acc fs).2)
+        = solveList I o n ps (w.map Prod.fst) acc fs := by
+  intro ps
+  induction ps with
+  | nil => intro w acc fs; rfl
+  | cons p rest ih =>
+    intro w acc fs
+    have h := trace_noninterference I snap o n (p : Int) on reset w
+    unfold tracedSolveList solveList
+    rcases ht : tracedSolveT I snap on reset o n (p : Int) w with ⟨w', r⟩
+    rw [ht] at h
+    simp only at h
+    rw [← h]
+    cases r with
+    | ret b => exact ih w' _ _
+    | valueError => rfl
+    | indexError => rfl
+    | solutionError c => rfl
+    | nonConvergence => rfl
+    | badErrorsArg => rfl
+
 end Fsic.C17
